@@ -146,6 +146,7 @@ func animSig(a *animation.Animation) string {
 
 func checkC09(args []string) {
 	run := vx.NewRun("C09", "model_checking", args)
+	activeRun = run
 	run.Rule = "(1) TLC model-checks shortcut machine = container semantics on all frame lists of the bounded domain (spec/AnimDec.tla); (2) TLC -simulate generates frame lists, (3) seeded random larger lists and (4) blend-arithmetic strips; all are played by the real AnimDecoder and every returned canvas is trace-validated against the container semantics by spec/TVAnimDec.tla; Reset-replay and snapshot immutability are checked on every playback. distinct = distinct frame-list signatures (rectangles, blend, dispose, alpha flag) with >= 2 frames"
 	run.Assumptions = []string{"HasAlpha = false implies the frame's pixels are opaque (the flag is derived from the bitstream)", "frame offsets are non-negative (the container cannot express negative offsets)", "for dst alpha 0 both the container formula (src) and libwebp's integer rounding are accepted"}
 
@@ -159,14 +160,14 @@ func checkC09(args []string) {
 	if mc.InvViolated != "" {
 		// a model-level counterexample is only information; the verdict comes from replay on the code
 		mcCex = "model counterexample: invariant " + mc.InvViolated + " is violated in the code-shaped model"
-		run.Note(mcCex)
+		run.Note("%s", mcCex)
 	}
 	run.Cov["mc_distinct_states"] = mc.Distinct
 
 	var anims []*animation.Animation
 	gen := vx.MustTLC(vx.TLCOpts{Module: "MC_AnimDec", Cfg: "GEN_AnimDec.cfg", Workers: 1, Simulate: fmt.Sprintf("num=%d", run.Pick(1500, 20000)), Depth: 6, Seed: run.Seed, Timeout: 30 * time.Minute})
 	if gen.InvViolated != "" {
-		run.Note("model counterexample in generation run: " + gen.InvViolated)
+		run.Note("model counterexample in generation run: %s", gen.InvViolated)
 	}
 	for _, raw := range gen.Tagged("CASE") {
 		var c genAnimCase
